@@ -246,7 +246,13 @@ func solveAll(obls []*Obligation, dir string, timeout int, all bool, workers int
 					for _, m := range j.members {
 						ex[m] = true
 					}
-					b := &Obligation{ID: last.ID + "+batch", Kind: last.Kind, tag: last.tag, nlines: last.nlines, guard: "true", goal: and(goals...), fv: last.fv, exclude: ex}
+					from := j.members[0].nlines
+					for _, m := range j.members {
+						if m.nlines < from {
+							from = m.nlines
+						}
+					}
+					b := &Obligation{ID: last.ID + "+batch", Kind: last.Kind, batchFrom: from, tag: last.tag, nlines: last.nlines, guard: "true", goal: and(goals...), fv: last.fv, exclude: ex}
 					bt := timeout / 3
 					if bt < 10 {
 						bt = 10
